@@ -4,9 +4,52 @@ package jerr
 
 // Contracts for govc (/verif). Comment-only file: invisible without -tags verif.
 
+//@ inlinepkg github.com/jsightapi/jsight-schema-core/bytes
+//@ inlinepkg github.com/jsightapi/jsight-schema-core/fs
+
+// Assumed contracts of the line arithmetic of jsight-schema-core (loops over the content; read in source:
+// BeginningOfLine indexes data[min(i, len-1)] and so needs a non-empty content, EndOfLine reads data[i-1] and so needs
+// i <= len). A bounded conformance run of the real functions backs them (/verif/bounded).
+//@ extern (github.com/jsightapi/jsight-schema-core/bytes.Bytes).BeginningOfLine(b, index)
+//@   attr pure deterministic
+//@   requires[C01,C07] len(b.data) > 0
+//@   ensures result <= index && result < len(b.data)
+//@ extern (github.com/jsightapi/jsight-schema-core/bytes.Bytes).EndOfLine(b, index)
+//@   attr pure deterministic
+//@   requires[C01,C07] index <= len(b.data)
+//@   ensures result <= len(b.data)
+//@ extern (github.com/jsightapi/jsight-schema-core/bytes.Bytes).LineAndColumn(b, index)
+//@   attr pure deterministic nopanic
+//@   ensures imp(len(b.data) == 0 || len(b.data) <= index, result0 == 0 && result1 == 0)
+//@   ensures imp(len(b.data) > 0 && index < len(b.data), result0 >= 1 && result1 >= 1)
+//@ extern (github.com/jsightapi/jsight-schema-core/bytes.Bytes).TrimSpacesFromLeft(b)
+//@   attr pure deterministic nopanic
+//@   ensures len(result.data) <= len(b.data)
+
+// quote: begin <= end is the part of the dependency contract that is assumed (bounded-checked), see above.
+//@ extern github.com/jsightapi/jsight-api-core/jerr.quote(content, position)
+//@   attr pure deterministic
+//@   requires[C01,C07] len(content.data) > 0 && position <= len(content.data)
+
+//@ func NewLocation(f, i)
+//@   property C07
+//@   requires[C01,C07] f != nil && len(f.content.data) > 0 && i <= len(f.content.data)
+//@   ensures result.File == f && result.Index == i
+//@   ensures imp(i < len(f.content.data), result.Line >= 1 && result.Column >= 1)
+
+// "an index inside that file": the C07 clause is i < len; i == len does not panic (C01) but is not inside the file.
 //@ func NewJApiError(msg, f, i)
 //@   property C07
-//@   requires[C01,C07] f != nil
+//@   requires[C01,C07,@err-file] f != nil && len(f.content.data) > 0 && i <= len(f.content.data)
+//@   requires[C07,@err-index-inside] i < len(f.content.data)
 //@   ensures result != nil && fresh(result)
 //@   ensures result.Msg == msg && result.File == f && result.Index == i
 //@   ensures len(result.includeTrace) == 0 && result.wrapped == nil
+//@   ensures imp(i < len(f.content.data), result.Line >= 1 && result.Column >= 1)
+
+//@ func (*JApiError).OccurredInFile(e, f, atByte)
+//@   property C07
+//@   requires[C01,C07] e != nil && f != nil && len(f.content.data) > 0 && atByte <= len(f.content.data)
+//@   modifies e.includeTrace, e.includeTrace[:]
+//@   ensures len(e.includeTrace) == old(len(e.includeTrace)) + 1
+//@   ensures e.includeTrace[len(e.includeTrace)-1].path == f.name
